@@ -56,3 +56,28 @@ func vhB(b bool) int {
 	}
 	return 0
 }
+
+// C13 / C15 (wiring): the front ends the server command hands to the kernel API: the real Config.APISubsystems
+// instantiates exactly the enabled front ends, each under its own kind (the kind "http" is the one whose address
+// the server advertises in the links it hands out), on the configured address; both are enabled by default.
+func VH_CFG_APISubsystems() {
+	vx.IgnoreGo()
+	c := &Config{}
+	s := &c.API.Subsystems
+	s.Http.Enabled, s.Grpc.Enabled = vx.Choose(2) == 1, vx.Choose(2) == 1
+	s.Http.Config.Addr, s.Grpc.Config.Addr = ":0", ":0"
+	s.Http.Config.Timeout = 10000000000
+	subs, err := c.APISubsystems(nil)
+	vx.Assert(err == nil, "C15:enabled-front-ends-instantiate")
+	if err != nil {
+		return
+	}
+	n := map[string]int{}
+	for _, sub := range subs {
+		n[sub.Kind()]++
+	}
+	vx.Assert(len(subs) == vhB(s.Http.Enabled)+vhB(s.Grpc.Enabled), "C15:exactly-the-enabled-front-ends")
+	vx.Assert(n["http"] == vhB(s.Http.Enabled), "C15:http-front-end-present-iff-enabled")
+	vx.Assert(n["grpc"] == vhB(s.Grpc.Enabled), "C15:grpc-front-end-present-iff-enabled")
+	vx.Reach("done")
+}
